@@ -76,7 +76,7 @@ theorem matcher_correct_header (ic : Bool) (k v : Str) (req : Request) :
           · cases ic <;> simp [h1, h2, h3, evalM, evalHeader, hreq, hl, evalStrM]
           · cases ic <;> simp [h1, h2, h3, evalM, evalHeader, hreq, hl, evalStrM]
 
-theorem matcher_correct_cidr (c : Cidr) (ip : Nat) : c.contains ip = cidrHas c ip := by
+theorem matcher_correct_cidr (c : Cidr) (ip : IP) : c.contains ip = cidrHas c ip := by
   simp [Cidr.contains, cidrHas, Nat.shiftRight_eq_div_pow]
 
 theorem eval_principalAuthenticated (m : StrM) (auth : Bool) (req : Request) :
@@ -378,6 +378,24 @@ theorem matcher_correct_namespace_witness : ¬ NamespaceMatcherExact := by
   have := h "*sa".toList true nsWitnessReq (by decide) _ rfl
   revert this
   decide
+
+def nsWitnessReq2 : Request :=
+  { nsWitnessReq with peer := some ⟨"cluster.local".toList, "ns".toList, "bar".toList⟩ }
+
+/-- Two more shapes of the same defect (the regex `.*/ns/<value>/.*` is not anchored to the namespace
+    segment of the identity): the validator-accepted value `foo/sa` - which no namespace equals -
+    matches every workload of namespace `foo`; and the wildcard-free value `sa` matches a workload of
+    the namespace named `ns` (`spiffe://cluster.local/ns/ns/sa/bar` contains `/ns/sa/`).  (Replayed
+    on the real code: corpus `requests.ns-wildcard.ops`, cases 2 and 3.) -/
+theorem matcher_namespace_slash_witness :
+    (genPrincipal .srcNamespace [] "foo/sa".toList false true).map (evalM · nsWitnessReq) = some true ∧
+    specAtom .srcNamespace [] "foo/sa".toList nsWitnessReq = false := by decide
+
+theorem matcher_namespace_anchor_witness :
+    nsValueOK "sa".toList = true ∧
+    (genPrincipal .srcNamespace [] "sa".toList false true).map (evalM · nsWitnessReq2) = some true ∧
+    specAtom .srcNamespace [] "sa".toList nsWitnessReq2 = false ∧
+    nsWitnessReq2.peerOK = false := by decide
 
 /-- What does hold for every namespace value: the generated matcher never misses a namespace the
     value denotes (so DENY `namespaces` / ALLOW `notNamespaces` stay safe). -/
